@@ -36,13 +36,14 @@ FIXED_TAGS = [
     "krrood.adapters.nothere.X", "krrood..adapters.X", "dataclasses.dataclass", "dataclasses.MISSING", "enum.Enum",
     "abc.ABC", "decimal", "uuid", "uuid.uuid4", "uuid.NAMESPACE_DNS", "collections.abc", "collections.abc.Mapping",
     "sys.modules", "sys.path", "__main__.X", "__main__", "builtins.", ".builtins", "1.2", "1", "a.1", "a-b.c", "a/b.c",
+    "models.jsonmodel.PlainUUID", "models.jsonmodel.Coin",
     "models.jsonmodel.Outer", "models.jsonmodel.Outer.NestedNode", "models.jsonmodel.Outer.Missing", "models.jsonmodel.Outer.NestedNode.x",
     "models.jsonmodel.Node0.name", "models.jsonmodel.Node0._from_json", "json.decoder.JSONDecoder.decode", "json.decoder.JSONDecoder.decode.x",
     "os.path.join", "os.path.", "a\x00b.c", "os.\x00", "a" * 300 + ".b", "importlib.import_module", "types.ModuleType", "types.FunctionType", "functools.partial",
 ]
 FRAGS = ["os", "path", "json", "krrood", "adapters", "json_serializer", "models", "jsonmodel", "badpkg", "x", "X",
          "uuid", "UUID", "typing", "List", "T", "", " ", "1", "builtins", "int", "dumps", "a_function", "TV",
-         "NotSerializable", "sys", "decimal", "Decimal", "Node0", "nothere", "Outer", "NestedNode", "JSONDecoder", "decoder"]
+         "NotSerializable", "sys", "decimal", "Decimal", "Node0", "nothere", "Outer", "NestedNode", "JSONDecoder", "decoder", "PlainUUID", "Coin"]
 
 
 def plan(tier):
@@ -126,7 +127,10 @@ def independent_valid(tag):
         fj = vars(obj).get("_from_json", None) if "_from_json" in vars(obj) else getattr(obj, "_from_json", None)
         fj = getattr(fj, "__func__", fj)
         return callable(fj) and fj is not SubclassJSONSerializer._from_json.__func__
-    return JSONSerializableTypeRegistry().get_deserializer(obj) is not None
+    # the harness's own record of what is registered (not the registry's answer: a registry that also answers for
+    # sub-classes of a registered type would otherwise make such a tag look valid)
+    from models import jsonmodel
+    return obj in jsonmodel.REGISTERED_TYPES
 
 
 def mechanism(tag, exc):
